@@ -1,6 +1,6 @@
 # sourced by every script: offline Go environment
 export GOFLAGS=-mod=mod GOPROXY=off GOSUMDB=off GOTOOLCHAIN=local GODEBUG=goindex=0
-export ARGLIB_LEVEL=panic
+export ARGLIB_LEVEL=fatal
 # VERIF = the directory this file lives in (so a worktree / snapshot of /verif uses itself)
 export VERIF=$(cd "$(dirname "${BASH_SOURCE[0]}")" && pwd)
 export REPO=${REPO:-/repo}
